@@ -131,6 +131,7 @@ class ImageBatch(DataTensor):
                 start = 0
                 for num in split_sizes:
                     split_grids.append(grids[start : start + num])
+                    start += num
                 return split_grids
             if func in (torch.tensor_split, Tensor.tensor_split):
                 grids = grids[0]
